@@ -64,7 +64,12 @@ pub fn conc_scenarios() -> Vec<(WorldSpec, Vec<Vec<OpSpec>>)> {
         (empty.clone(), vec![vec![mk("x/y/z")], vec![mk("x/y/z")]]),
         (empty.clone(), vec![vec![mk("x/y")], vec![mk("x/y/z/w")]]),
         (pre.clone(), vec![vec![mk("lx/y/z")], vec![mk("x/y/z").c()]]),
-        (empty, vec![vec![mk("a/b")], vec![mk("c/d")]]),
+        (empty.clone(), vec![vec![mk("a/b")], vec![mk("c/d")]]),
+        // '..' behind a component that another call creates meanwhile: "a/../../x" may fail (a is
+        // missing, '..' in the missing tail is refused) or create x *inside* the root (a exists:
+        // a/.. is the root, ../x is clamped) - never anything next to the root
+        (empty.clone(), vec![vec![mk("a/../../x")], vec![mk("a")]]),
+        (empty, vec![vec![mk("a/../../x/y").c()], vec![mk("a")]]),
     ]
 }
 
@@ -491,6 +496,36 @@ pub fn conc_oracle(case: &Case, out: &RunOut, pre: &[String], post: &[String]) -
     v
 }
 
+/// scenarios with '..' in the requested path: a call may fail, but whatever happens nothing is
+/// added outside the root, nothing is removed, and a returned handle is a directory inside the root
+fn dotdot_oracle(out: &RunOut, pre: &[String], post: &[String]) -> Vec<(String, String)> {
+    let mut v = Vec::new();
+    for r in &out.records {
+        if let (Op::MkdirAll { path, .. }, Outcome::Fd(_), Some(f)) = (&r.spec.op, &r.outcome, &r.facts) {
+            if f.ftype != libc::S_IFDIR {
+                v.push(("handle-not-directory".into(), format!("{path:?}")));
+            }
+            if !(f.path == "/mnt/w/root" || f.path.starts_with("/mnt/w/root/")) {
+                v.push(("handle-outside-the-root".into(), format!("mkdir_all({path:?}) returned {}", f.path)));
+            }
+        }
+        if let Outcome::Panic(m) = &r.outcome {
+            v.push(("panic".into(), m.clone()));
+        }
+    }
+    let removed: Vec<&String> = pre.iter().filter(|l| !post.contains(l)).collect();
+    if !removed.is_empty() {
+        v.push(("something-removed-or-modified".into(), format!("{removed:?}")));
+    }
+    for a in post.iter().filter(|l| !pre.contains(l)) {
+        let name = a.split(' ').nth(1).unwrap_or("");
+        if !(a.starts_with("D ") && name.starts_with("root/")) {
+            v.push(("created-outside-the-root".into(), format!("{a:?} was added while mkdir_all calls with '..' raced with a call creating the component in front of it")));
+        }
+    }
+    v
+}
+
 /// lexical normalisation for the concurrent menu (lx -> x, '.', '//', 'y/../y')
 fn normal_w(p: &str, has_lx: bool) -> String {
     let mut out: Vec<&str> = Vec::new();
@@ -537,7 +572,9 @@ fn run_conc(u: &mut Universe, case: &Case, st: &mut Stats, sample: bool) -> bool
     }
     st.count("schedule.switches", out.switches as u64);
     let mut seen = std::collections::BTreeSet::new();
-    for (clause, detail) in conc_oracle(case, &out, &h.pre, &post) {
+    let dotdot = case.jobs.iter().flatten().any(|s| matches!(&s.op, Op::MkdirAll { path, .. } if path.contains("..")));
+    let verdicts = if dotdot { dotdot_oracle(&out, &h.pre, &post) } else { conc_oracle(case, &out, &h.pre, &post) };
+    for (clause, detail) in verdicts {
         if seen.insert(clause.clone()) {
             let v = mk_violation(case, &out, "C12", &clause, "mkdir_all", detail);
             st.violation(&v);
@@ -709,7 +746,7 @@ pub fn finalise(tier: &str, seed: u64, res: coord::CheckResult) -> i32 {
         tier,
         seed,
         "exploration",
-        "sequential: one evaluation = one mkdir_all on a generated quiescent tree, expectation derived from raw openat2 queries before the call (deepest existing prefix, remaining components), post-state compared with the whole-tree snapshot; concurrent: one evaluation = 2-4 caller threads running mkdir_all for same/overlapping/disjoint paths under a seeded scheduler (uniform switching or PCT) that decides who runs between any two system calls; fault-enum: 11 fixed calls x every (system call of the call, errno of its catalogue) - a call that fails may have created only directories of the missing chain (a prefix of the requested path), a call that reports success has created all of them with the requested mode; preempt: every schedule with at most one (thorough, K: two) preemption(s) for four canonical two-thread scenarios; non-trivial = (sequential) the call had to create something or succeeded / (concurrent) at least one context switch away from the default order happened; distinct = hash of (case, interleaving)",
+        "sequential: one evaluation = one mkdir_all on a generated quiescent tree, expectation derived from raw openat2 queries before the call (deepest existing prefix, remaining components), post-state compared with the whole-tree snapshot; concurrent: one evaluation = 2-4 caller threads running mkdir_all for same/overlapping/disjoint paths under a seeded scheduler (uniform switching or PCT) that decides who runs between any two system calls; fault-enum: 11 fixed calls x every (system call of the call, errno of its catalogue) - a call that fails may have created only directories of the missing chain (a prefix of the requested path), a call that reports success has created all of them with the requested mode; preempt: every schedule with at most one (thorough, K: two) preemption(s) for six canonical two-thread scenarios (two of them with a `..` behind a component the other call creates: calls may fail, nothing may appear next to the root); non-trivial = (sequential) the call had to create something or succeeded / (concurrent) at least one context switch away from the default order happened; distinct = hash of (case, interleaving)",
         res,
         extra,
         vec!["preemption only at trapped system calls".into(), "umask 022, no setgid parents in generated worlds".into()],
